@@ -31,8 +31,7 @@ def verdict (cfg : Cfg) (p : Program) (edb : DB) (impl : String) : String × Boo
   if !hasDup ws && bad.isEmpty then (specOk, nt) else
   let detail := if hasDup ws then "duplicate" else "shape:" ++ (bad.headD "")
   let cls :=
-    if recursiveMinMaxHead p then "recursive_minmax_head"
-    else if queryRel p != answeredRel p then "last_rule_head_not_last_head"
+    if queryRel p != answeredRel p then "last_rule_head_not_last_head"
     else if lastHeadMultiClauseWithSip cfg p then "last_head_multi_clause_with_sip"
     else if repeatedVarUnderJoinPlanning cfg p then "repeated_var_in_scan_under_join_planning"
     else "unclassified"
@@ -44,6 +43,7 @@ def runH : Handler := fun args impl =>
   | some (cfg, edb, p) =>
     let (sv, nt) := verdict cfg p edb impl
     let m := (Engine.run cfg (fun _ => 0) (fun _ ts => ts) fuelDefault p edb).toWire
+    -- `err:fragment`: an aggregate other than the modelled min/max-in-loop form inside a fix-point
     { model := if allOff cfg && m != "err:fragment" then m else impl, spec := sv, nt := nt }
   | none => badReq
 
